@@ -256,9 +256,21 @@ def run_lib(case):
     inputs = []
     ii = 0
     types = ["signal-dot", "signal-check", "signal-info"]
+    pnames = None
+    if case.get("param_named_inputs"):
+        # the caller's signals carry the names of the library function's own parameters, rotated by one, so that a
+        # later argument mentions the name of an earlier parameter (arguments are evaluated in the caller's scope)
+        import re as _re
+
+        with open(os.path.join(driver.REPO, "lib", "math.facto")) as _f:
+            m_ = _re.search(r"func\s+%s\s*\(([^)]*)\)" % fn, _f.read())
+        if m_:
+            sig_params = [p_.split()[-1] for p_ in m_.group(1).split(",") if p_.strip().startswith("Signal")]
+            if len(sig_params) >= 2:
+                pnames = sig_params[1:] + sig_params[:1]
     for k in kinds:
         if k == "S":
-            nm = "a%d" % len(inputs)
+            nm = pnames[len(inputs)] if pnames else "a%d" % len(inputs)
             inputs.append(nm)
             args_src.append(nm)
         else:
@@ -378,8 +390,10 @@ def gen_cases(tier, seed):
             if r % 2 == 1:
                 names_ = sub.sample(["x", "a", "b", "t", "value", "n", "result", "low", "high", "pos", "k", "s"], k=5)
                 user_ints = [(nm_, sub.randint(2, 12)) for nm_ in names_]
-            cases.append(_mk("lib_" + fn + ("_user_ints" if user_ints else ""), sub, kind="lib", fn=fn, ints=ints, ntuples=ntup,
-                             user_ints=user_ints, import_as=sub.choice(["math.facto", "lib/math.facto", "math"])))
+            pni = (r % 4 == 2) and kinds.count("S") >= 2
+            cases.append(_mk("lib_" + fn + ("_user_ints" if user_ints else "") + ("_param_named_inputs" if pni else ""), sub,
+                             kind="lib", fn=fn, ints=ints, ntuples=ntup, user_ints=user_ints, param_named_inputs=pni,
+                             import_as=sub.choice(["math.facto", "lib/math.facto", "math"])))
     for fn in ["abs", "clamp", "div_floor"]:
         sub = random.Random(rng.randrange(1 << 60))
         kinds = LIB[fn][0]
